@@ -13,6 +13,7 @@ import (
 	"github.com/tetratelabs/wazero"
 	"github.com/tetratelabs/wazero/api"
 	"github.com/tetratelabs/wazero/experimental"
+	"github.com/tetratelabs/wazero/experimental/table"
 	"github.com/tetratelabs/wazero/imports/wasi_snapshot_preview1"
 	"github.com/tetratelabs/wazero/internal/wasmruntime"
 	"github.com/tetratelabs/wazero/sys"
@@ -362,7 +363,17 @@ func newEngine(name string, et bool) *engine {
 			NewFunctionBuilder().WithFunc(func(ctx context.Context, mod api.Module, tag uint32) uint32 {
 			e.sawModule(mod)
 			return tag + obsAdd
-		}).Export("observe").Instantiate(ctx)
+		}).Export("observe").
+			NewFunctionBuilder().WithFunc(func(ctx context.Context, mod api.Module, off uint32) uint32 {
+			e.sawModule(mod)
+			// documented: panics with call_indirect's traps when the slot is out of range, null or of another type
+			f := table.LookupFunction(mod, 0, off, nil, []api.ValueType{api.ValueTypeI32})
+			res, err := f.Call(ctx)
+			if err != nil {
+				panic(err)
+			}
+			return uint32(res[0])
+		}).Export("tlookup").Instantiate(ctx)
 		if err != nil {
 			panic(err)
 		}
@@ -385,7 +396,7 @@ func newEngine(name string, et bool) *engine {
 	}
 }
 
-var nestedNames = []string{"nest", "via_peer", "inc", "trap", "rec", "ghp", "gexit", "obs", "ighp", "igexit", "iobs", "vp_ghp", "vp_gexit", "vp_obs"}
+var nestedNames = []string{"nest", "via_peer", "inc", "trap", "rec", "ghp", "gexit", "obs", "ighp", "igexit", "iobs", "vp_ghp", "vp_gexit", "vp_obs", "tlk"}
 
 var slotNames = [nSlot]string{"peer", "a", "c"}
 
@@ -522,6 +533,8 @@ func (e *engine) hop(ctx context.Context, mod api.Module, stack []uint64) {
 			_, err = r.call(t.fns[formFn("ghp", l.Ind, l.ViaImp)][level+1], formArgs(l.Ind, l.ViaImp, uint64(l.HK), uint64(l.Addr), l.Val)...)
 		case "gexit":
 			_, err = r.call(t.fns[formFn("gexit", l.Ind, l.ViaImp)][level+1], formArgs(l.Ind, l.ViaImp, uint64(l.Code), uint64(l.How), uint64(l.Addr), l.Val)...)
+		case "tlk":
+			res, err = r.call(t.fns["tlk"][level+1], uint64(tlkOffsets[l.TrapK]), uint64(l.Addr), l.Val)
 		case "obs":
 			res, err = r.call(t.fns[formFn("obs", l.Ind, l.ViaImp)][level+1], formArgs(l.Ind, l.ViaImp, uint64(l.HK))...)
 		}
@@ -679,6 +692,8 @@ func (r *runner) exec(o *op) (res []uint64, err error) {
 		return r.call(f(formFn("ghp", o.Ind, o.ViaImp)), formArgs(o.Ind, o.ViaImp, uint64(o.K), uint64(o.Addr), o.Val)...)
 	case "gexit":
 		return r.call(f(formFn("gexit", o.Ind, o.ViaImp)), formArgs(o.Ind, o.ViaImp, uint64(o.Code), uint64(o.How), uint64(o.Addr), o.Val)...)
+	case "tlk":
+		return r.call(f("tlk"), uint64(tlkOffsets[o.K]), uint64(o.Addr), o.Val)
 	case "obs":
 		return r.call(f(formFn("obs", o.Ind, o.ViaImp)), formArgs(o.Ind, o.ViaImp, uint64(o.K))...)
 	case "nest":
